@@ -361,8 +361,11 @@ class ModelCacheMixin:
             # like the backend, a signed query answers with the signed reading of the value
             return min(map(signed_key, cached)) if signed else min(cached)
 
+        # the models found on the way are only cached (_model_hook) for variables the solver's constraints mention at
+        # that time: as in batch_eval, e is only marked if its optimum's model can have been cached
+        cacheable = self.variables.issuperset(e.variables)
         m = super().min(e, extra_constraints=extra_constraints, signed=signed, exact=exact)
-        if len(extra_constraints) == 0:
+        if len(extra_constraints) == 0 and cacheable:
             (self._min_signed_exhausted if signed else self._min_exhausted)[e.hash()] = e
         return m
 
@@ -380,8 +383,11 @@ class ModelCacheMixin:
 
             return max(map(signed_key, cached)) if signed else max(cached)
 
+        # the models found on the way are only cached (_model_hook) for variables the solver's constraints mention at
+        # that time: as in batch_eval, e is only marked if its optimum's model can have been cached
+        cacheable = self.variables.issuperset(e.variables)
         m = super().max(e, extra_constraints=extra_constraints, signed=signed, exact=exact)
-        if len(extra_constraints) == 0:
+        if len(extra_constraints) == 0 and cacheable:
             (self._max_signed_exhausted if signed else self._max_exhausted)[e.hash()] = e
         return m
 
